@@ -77,6 +77,20 @@ CHECKS = {
         "gaussian/variance, 1e-2 poisson, 1e-4 excitation units); that the stacked cvxpy objective is the block sum is "
         "argued in DESIGN.md and checked by the result comparison, not proved; hooks record the scatter.",
         "5/C05"),
+    "C04": (
+        "Lean 4 proof (problem construction = documented objective; exact KKT => global optimum, any size, any ordered field) + per-answer exact certificate",
+        "Theorems in lean/Dreye/Props/C04.lean and Props/Cert.lean prove, for every size and every ordered field: the least-squares "
+        "data built by the parameter preparation equals the weighted squared error of K(Ax+baseline) against the target for "
+        "scalar/vector/matrix/absent K; the returned prediction is the model's capture of the returned intensities; a point "
+        "accepted by the exact KKT checker minimises the documented error over ALL in-bound intensities; a Frank-Wolfe gap "
+        "bounds the distance to the optimum; minimisers have a unique prediction; zero error iff the target is reproduced. "
+        "On every run each row returned by lsq_linear / ReceptorEstimator.fit (default and high-accuracy settings, all K / "
+        "baseline / weight / bound shapes, targets inside, on, outside the gamut and below the baseline) is compared with an "
+        "exact optimum computed in Q and accepted only by the Lean checker.",
+        "Trusted: Lean kernel; cvxpy and the solvers are engines (their answers are certificate-checked per row; only "
+        "termination with some answer is assumed); the active-set guess is an untrusted hint; tolerances are the property's "
+        "(2e-2 capture units / 1% of range default, 2e-3 / 1e-6 high accuracy); model tied to code by the per-run correspondence.",
+        "5/C04"),
 }
 
 NOT_YET = "check not built yet in this round of work (planned in DESIGN.md section 5); no claim is made"
